@@ -27,7 +27,8 @@ def exhaustive(tier):
 def required(tier):
     return ["note_at_start-1", "note_at_start", "note_at_end-1", "note_at_end", "zero_length_phrase_on_note_tick", "nested",
             "touching", "equal_starts", "note_before_first_phrase", "note_after_last_phrase", ">=2_phrases_skipped_in_one_step",
-            "track_without_phrases", "concurrent_stage", "ticks_around_2^31..10^12"]
+            "track_without_phrases", "concurrent_stage", "ticks_around_2^31..10^12", "whole_generated_chart",
+            "shape:open_in_phrase", "shape:chord_in_phrase", "shape:held_note_rings_past_a_phrase_end", "shape:flagged_in_phrase"]
 
 
 def configs():
@@ -44,10 +45,11 @@ def shards(tier, seed):
     out = [{"name": f"scope-{i}", "kind": "scope", "part": i, "parts": n} for i in range(n)]
     m = 8 if tier == "quick" else 32
     out += [{"name": f"rand-{i}", "kind": "random", "count": 40 if tier == "quick" else 700} for i in range(m)]
+    out += [{"name": f"charts-{i}", "kind": "charts", "count": 60 if tier == "quick" else 1500} for i in range(4 if tier == "quick" else 16)]
     return out
 
 
-def classes(rec, phrases, ticks):
+def classes(rec, phrases, ticks, j=0):
     if not phrases:
         rec.cls("track_without_phrases")
         return
@@ -73,6 +75,19 @@ def classes(rec, phrases, ticks):
                 rec.cls("touching")
     if ticks and ticks[0] < phrases[0][0]:
         rec.cls("note_before_first_phrase")
+    for i, t in enumerate(ticks):
+        if any(s <= t < s + l for s, l in phrases):
+            g = shape(t, j, i)
+            if g["open"] is not None:
+                rec.cls("shape:open_in_phrase")
+            elif len(g["lanes"]) > 1:
+                rec.cls("shape:chord_in_phrase")
+            if g["tap"] or g["forced"]:
+                rec.cls("shape:flagged_in_phrase")
+        g = shape(t, j, i)
+        end = t + max([g["open"] or 0] + list(g["lanes"].values()))
+        if any(t < s + l < end for s, l in phrases if l) and any(t < u < end for u in ticks):
+            rec.cls("shape:held_note_rings_past_a_phrase_end")
     if ticks and ticks[-1] >= max(s + l for s, l in phrases):
         rec.cls("note_after_last_phrase")
     # cursor skipping: consecutive notes between which >= 2 phrases end
@@ -82,12 +97,34 @@ def classes(rec, phrases, ticks):
             break
 
 
+def shape(t, j, i):
+    """membership is a matter of the note's TICK only: the notes come in every shape a section can write — single lanes, chords,
+    open notes, held notes that still ring while later notes (and phrase ends) pass, forced and tap flags"""
+    v = (t * 7 + j * 3 + i) % 10
+    g = {"tick": t, "lanes": {str(t % 5): 0}, "open": None, "forced": False, "tap": False}
+    if v == 0:
+        g["lanes"], g["open"] = {}, 0
+    elif v == 1:
+        g["lanes"], g["open"] = {}, 2 + t % 7
+    elif v == 2:
+        g["lanes"] = {str(t % 5): 0, str((t + 2) % 5): 0}
+    elif v == 3:
+        g["lanes"] = {str(t % 5): 3 + (t + j) % 9}  # held across the next few ticks
+    elif v == 4:
+        g["lanes"] = {str(t % 5): 1, str((t + 1) % 5): 6 + j % 5, str((t + 3) % 5): 0}
+    elif v == 5:
+        g["tap"] = True
+    elif v == 6:
+        g["forced"] = i > 0
+    return g
+
+
 def chart_of(tracks_spec, res=192):
     tracks = {}
     for j, (phrases, ticks) in enumerate(tracks_spec):
         inst, diff = model.ALL_PAIRS[j]
         tracks[f"{inst}/{diff}"] = {
-            "groups": [{"tick": t, "lanes": {str(t % 5): 0}, "open": None, "forced": False, "tap": False} for t in ticks],
+            "groups": [shape(t, j, i) for i, t in enumerate(ticks)],
             "phrases": [list(p) for p in phrases]}
     big = any(t > 10**9 for _, ticks in tracks_spec for t in ticks)
     truth = {"resolution": res, "tempos": [[0, gen.usable_n(120000 if not big else 10**9)], [4, gen.usable_n(150000 if not big else 10**9 - 1)]],
@@ -122,8 +159,8 @@ def run_specs(rec, specs):
         if KEEP is not None:
             KEEP.add(case)
         if d is not None and not d.of("C05") and not [x for x in d.items if sp_list(x[0], x[1])]:
-            for phrases, ticks in chunk:
-                classes(rec, phrases, ticks)
+            for j, (phrases, ticks) in enumerate(chunk):
+                classes(rec, phrases, ticks, j)
                 if phrases:
                     rec.key([phrases, ticks])
         if i == 0:
@@ -148,6 +185,21 @@ def run_shard(shard, rec, tier, seed):
                 specs.append((ph, ticks))
         specs.append(([], [0, 3, 5]))
         run_specs(rec, specs)
+    elif shard["kind"] == "charts":
+        # whole generated charts: every instrument (Drums, GHL, ...), realistic and hostile note/phrase/tempo structure together
+        for i in range(shard["count"]):
+            rng = harness.rng_for(seed, ID, shard["name"], i)
+            case = gen.gen_chart(rng, "hostile" if i % 2 else "realistic", n_tracks=rng.choice([1, 2, 4]), n_groups=rng.choice([10, 60, 250]),
+                                 n_globals=0, n_tempos=rng.choice([1, 3, 10]))
+            out, ob, d = mcheck.judge(rec, ("C05",), case, extra=sp_list)
+            if d is not None and not mcheck.select(d, ("C05",), sp_list):
+                rec.cls("whole_generated_chart")
+                for k, tr in case["truth"]["tracks"].items():
+                    rec.cls("instrument:" + k.split("/")[0])
+                    if tr["phrases"]:
+                        rec.key([k, tr["phrases"], [g["tick"] for g in tr["groups"]]])
+            if rec.full:
+                break
     else:
         global KEEP
         KEEP = mcheck.Keep(limit=4, max_chars=25000)
